@@ -107,24 +107,53 @@ pub const EFFECTS: [anstyle::Effects; 12] = [
 ];
 
 /// Build an `Effects` from model bits through the public constants only.
+/// (Loop-free on purpose: harnesses of code with expensive loops keep a tiny unwind bound.)
 pub fn effects_from_bits(bits: u16) -> anstyle::Effects {
     let mut e = anstyle::Effects::new();
-    blocks!(12, i, {
-        if bits & (1 << i) != 0 {
-            e = e.insert(EFFECTS[i]);
-        }
-    });
+    macro_rules! bit {
+        ($i:expr) => {
+            if bits & (1 << $i) != 0 {
+                e = e.insert(EFFECTS[$i]);
+            }
+        };
+    }
+    bit!(0);
+    bit!(1);
+    bit!(2);
+    bit!(3);
+    bit!(4);
+    bit!(5);
+    bit!(6);
+    bit!(7);
+    bit!(8);
+    bit!(9);
+    bit!(10);
+    bit!(11);
     e
 }
 
-/// Read an `Effects` back into model bits through `contains` only.
+/// Read an `Effects` back into model bits through `contains` only (loop-free).
 pub fn effects_bits(e: anstyle::Effects) -> u16 {
     let mut bits = 0u16;
-    blocks!(12, i, {
-        if e.contains(EFFECTS[i]) {
-            bits |= 1 << i;
-        }
-    });
+    macro_rules! bit {
+        ($i:expr) => {
+            if e.contains(EFFECTS[$i]) {
+                bits |= 1 << $i;
+            }
+        };
+    }
+    bit!(0);
+    bit!(1);
+    bit!(2);
+    bit!(3);
+    bit!(4);
+    bit!(5);
+    bit!(6);
+    bit!(7);
+    bit!(8);
+    bit!(9);
+    bit!(10);
+    bit!(11);
     bits
 }
 
